@@ -262,9 +262,13 @@ def _esc_child(case):
 # ---- numbers spelled with non-ASCII digits / padded with Unicode whitespace: int(str) and float(str) read them, so every carrier does
 UNI_NUMS = ["\u0661\u0662\u0663", "\uff14\uff12", "\xa07", "7\u2003", "\u0967.\u096b", " 42 ", "1_000", "\u0665e2", "-\u0663",
             # a leading U+FEFF is an ordinary character of the text (a str never loses it), whatever the carrier
-            "\ufeff12", "\ufeffa", "\ufeff[1, 2]", "\ufeff{\"a\": 1}", "a\ufeffb", "\ufeffh\u00e9llo"]
+            "\ufeff12", "\ufeffa", "\ufeff[1, 2]", "\ufeff{\"a\": 1}", "a\ufeffb", "\ufeffh\u00e9llo",
+            # ordinary texts (for the str-subclass targets below: the text, not the carrier object, becomes the value)
+            "abc", "", "null", "true", "1.5", "h\u00e9llo"]
 UNI_TYPES = ["int", "float", "typing.Optional[int]", "typing.Union[int, str]", "typing.Union[float, str]", "decimal.Decimal", "fractions.Fraction",
-             "typing.List[int]", "bool", "str", "typing.Literal['a', 'b']", "pathlib.PurePosixPath", "typing.Dict[str, int]", "LOAD", "STRLOAD"]
+             "typing.List[int]", "bool", "str", "typing.Literal['a', 'b']", "pathlib.PurePosixPath", "typing.Dict[str, int]", "LOAD", "STRLOAD",
+             # user-defined subclasses of str (and of int): targets like any other scalar
+             "Tag", "NTag", "typing.Optional[Tag]", "typing.Union[int, Tag]", "typing.List[Tag]", "typing.Dict[Tag, int]", "Count"]
 
 
 def _uni_child(_job):
@@ -277,6 +281,7 @@ def _uni_child(_job):
     import pathlib
     from typelib import serdes
     ns = {"typing": typing, "decimal": decimal, "fractions": fractions, "pathlib": pathlib}
+    exec("class Tag(str):\n    pass\nclass Count(int):\n    pass\nNTag = typing.NewType('NTag', Tag)\n", ns)
     bad = []
     n = 0
     for tx in UNI_TYPES:
